@@ -58,11 +58,24 @@ def _items():
         ("str-json-dumps", lambda: json.dumps(d_req, separators=(",", ":")), d_req),
         ("str-json-dumps-default", lambda: json.dumps(d_uni), d_uni),
         ("str-fast-json", lambda: _as_str(fast_json.dumps(d_req)), d_req),
+        ("dict-beyond-64bit", lambda: {"jsonrpc": "2.0", "id": 9, "result": {"big": 2**64, "neg": -(2**63) - 1, "huge": 10**30}},
+         {"jsonrpc": "2.0", "id": 9, "result": {"big": 2**64, "neg": -(2**63) - 1, "huge": 10**30}}),
+        ("dict-deep-nesting", lambda: {"jsonrpc": "2.0", "id": 10, "result": {"deep": _deep(300)}},
+         {"jsonrpc": "2.0", "id": 10, "result": {"deep": _deep(300)}}),
+        ("typed-beyond-64bit", lambda: JSONRPCResponse(id=11, result={"big": 2**64}),
+         {"jsonrpc": "2.0", "id": 11, "result": {"big": 2**64}}),
         ("unserialisable-object", lambda: object(), None),
         ("unserialisable-dict-with-set", lambda: {"jsonrpc": "2.0", "id": 1, "method": "m", "params": {"s": {1, 2}}}, None),
         ("unserialisable-model", lambda: _Boom(), None),
     ]
     return table
+
+
+def _deep(n):
+    v: Any = 0
+    for _ in range(n):
+        v = [v]
+    return v
 
 
 def _as_str(x):
@@ -167,6 +180,78 @@ def run_one(ctl: explorer.Ctl, cfg: Dict[str, Any]) -> Dict[str, Any]:
     return obs
 
 
+# ---------------------------------------------------------------------------
+# two writers on the child's stdin: the outbound writer and the reader's batch-rejection error
+# ---------------------------------------------------------------------------
+RUN_X = "vf.checks.c06:run_interference"
+
+
+def run_interference(ctl: explorer.Ctl, cfg: Dict[str, Any]) -> Dict[str, Any]:
+    from chuk_mcp.transports.stdio.stdio_client import StdioClient
+
+    loop = new_loop(horizon=30)
+    q = seams.Quiescence(loop)
+    proc = seams.FakeProcess()
+    proc.stdin.yields = cfg["yields"]
+    n = cfg["size"]
+    msgs = [{"jsonrpc": "2.0", "id": f"m{i}", "method": "tools/call", "params": {"blob": "x" * n, "i": i}}
+            for i in range(cfg["count"])]
+    batch_line = b'[{"jsonrpc":"2.0","method":"notifications/message","params":{}}]\n'
+    info: Dict[str, Any] = {}
+
+    async def main():
+        with seams.patched_open_process(lambda cmd, kw: proc):
+            async with StdioClient(seams.stdio_params()) as client:
+                client.set_protocol_version("2025-06-18")  # batches are rejected with one -32600 error line
+                read, write = client.get_streams()
+                if cfg["batch"] == "before":
+                    proc.stdout.feed(batch_line)
+                for i, m in enumerate(msgs):
+                    await write.send(m)
+                    if cfg["batch"] == "between" and i == 0:
+                        proc.stdout.feed(batch_line)
+                if cfg["batch"] == "after":
+                    proc.stdout.feed(batch_line)
+                await q.settle()
+                await write.aclose()
+                await q.settle()
+
+    status, val = loop.run_main(main())
+    errors = loop.collect_errors()
+    loop.abandon()
+    viol: List[dict] = []
+    tag = {"size": "large" if n > 65536 else "small"}
+    if status != "ok":
+        return {"outcome": status, "violations": [{"sig": {"class": "did-not-finish", **tag}, "msg": f"cfg={cfg}: {status} {val!r}"}]}
+    data = bytes(proc.stdin.data)
+    lines = data.split(b"\n")
+    tail, lines = lines[-1], lines[:-1]
+    decoded = []
+    broken = 0
+    for raw in lines:
+        try:
+            decoded.append(json.loads(raw.decode("utf-8")))
+        except Exception:
+            broken += 1
+    if tail != b"":
+        viol.append({"sig": {"class": "unterminated-line", **tag}, "msg": f"cfg={cfg}: stdin does not end with a newline"})
+    if broken:
+        viol.append({"sig": {"class": "line-not-json", "writers": "two", **tag},
+                     "msg": f"cfg={cfg}: {broken} of {len(lines)} stdin lines are not single JSON values (interleaved writes?)"})
+    own = [d for d in decoded if isinstance(d, dict) and d.get("method") == "tools/call"]
+    errs = [d for d in decoded if isinstance(d, dict) and "error" in d]
+    if not broken:
+        if [d.get("id") for d in own] != [m["id"] for m in msgs] or not all(strict_eq(a, b) for a, b in zip(own, msgs)):
+            viol.append({"sig": {"class": "content-changed", "writers": "two", **tag},
+                         "msg": f"cfg={cfg}: messages on stdin {[d.get('id') for d in own]}"})
+        want_err = 0 if cfg["batch"] == "none" else 1
+        if len(errs) != want_err or any(e["error"].get("code") != -32600 for e in errs):
+            viol.append({"sig": {"class": "batch-rejection-line", **tag}, "msg": f"cfg={cfg}: error lines {errs}"})
+    if errors:
+        viol.append({"sig": {"class": "loop-error"}, "msg": f"{errors[:2]}"})
+    return {"outcome": f"lines={len(lines)}/broken={broken}", "cfg": cfg, "violations": viol}
+
+
 def _family(n: str) -> str:
     return n.split("-")[0]
 
@@ -202,12 +287,18 @@ def run(tier: str, only=None) -> core.Result:
              for s in ("typed", "dict", "str")]
     out = explorer.explore(RUN, cfgs2)
     sched.absorb(res, f"payload-json-depth{depth}", RUN, out, cfgs2)
+    xcfgs = [{"size": sz, "count": c, "yields": y, "batch": b} for sz in (10, 70000) for c in (1, 2) for y in (0, 1, 2, 3)
+             for b in ("none", "before", "between", "after")]
+    out = explorer.explore(RUN_X, xcfgs)
+    sched.absorb(res, "two-writers-on-stdin", RUN_X, out, xcfgs)
     res.coverage["exhaustive"] = True
     res.coverage["rule"] = (
         f"all sequences of <= {maxlen} outbound items over {n} item kinds (typed request/notification/response/error, "
         "unified message, dicts, pre-serialised compact strings from json.dumps and fast_json.dumps, three unserialisable "
         "kinds at every position) x {burst, settle-after-each}; plus every JSON value of the bounded grammar as a "
-        "params/result payload in typed, dict and string form; distinct = distinct observation digests"
+        "params/result payload in typed, dict and string form; plus the outbound writer racing the reader's batch-rejection "
+        "error line on the child's stdin (message size small / > 64 KiB x 1-2 messages x 0-3 scheduling points per write x "
+        "batch arriving before / between / after the writes); distinct = distinct observation digests"
     )
     res.assumptions = [
         "pre-serialised strings are single compact JSON texts (pretty-printed input is outside the statement)",
